@@ -270,3 +270,23 @@ fn c16_resistor_triples_keep_value_in_range() {
     vcover!(pullup == softpot + dropper, "witness: weakest allowed pull-up");
     vcover!(mk == 0, "witness: position 0");
 }
+
+// @harness prop=C16,C15,C17 tier=quick timeout=900
+// @about every supported integer sample rate fs in 100..=192000 Hz (symbolic): new() derives the settling skip as floor(fs * 1 ms) and the finger-lift allowance (newest samples excluded from the mean) as floor(fs * 2 ms), exactly the counts sample_rate_to_capacity(fs) reserves room for (capacity = floor(fs * 15 ms) + allowance + 1), so the mean always covers capacity - allowance samples and never reaches into the allowance; no overflow in the conversions
+#[kani::proof]
+fn c16_allowance_counts_match_sample_rate() {
+    let fs: u32 = kani::any();
+    kani::assume(fs >= 100 && fs <= 192_000);
+    const CAP: usize = sample_rate_to_capacity(1_000);
+    let rib: RibbonController<CAP> = RibbonController::new(fs as f32, 20.0e3, 820.0, 1.0e6);
+    let settle = (fs as u64 * 1_000 / 1_000_000) as usize;
+    let lift = (fs as u64 * 2_000 / 1_000_000) as usize;
+    vassert!(rib.num_to_ignore_up_front == settle, "C15/new/settling-skip-is-1ms-of-samples");
+    vassert!(rib.num_to_discard_at_end == lift, "C16/new/finger-lift-allowance-is-2ms-of-samples");
+    let cap = sample_rate_to_capacity(fs);
+    vassert!(cap == (fs as u64 * 15_000 / 1_000_000) as usize + lift + 1, "C16/capacity/reserves-the-allowance");
+    vassert!(cap > lift, "C16/capacity/mean-covers-at-least-one-sample");
+    vcover!(fs == 2_500, "witness: 2.5 kHz");
+    vcover!(fs == 192_000, "witness: 192 kHz");
+    vcover!(fs % 1000 == 999, "witness: just below a whole kHz");
+}
